@@ -23,7 +23,7 @@ ASSUMPTIONS = [
     "virtual clock; AF_UNIX socketpairs as in C04",
     "a 'probe' of an entry point is a maximal run of identical frames with no delivery in between",
 ]
-MUST = ["corrupted_answer_twice_at_once", "large_retry_budgets", "prefix_drop_then_refused", "same_command_repeated", "prefix_connections_refused", "prefix_idle_connection_dropped", "loop_change_previous_loop_open", "two_piece_answer_in_time", "lone_fragment_every_attempt", "slow_answer_in_time", "full_timeout_after_corrupt_answer", "final_silent_exact", "prefix_success_after_drops", "prefix_exhausted", "prefix_rejected", "prefix_send_error",
+MUST = ["stray_answer_of_another_function_code", "corrupted_answer_twice_at_once", "large_retry_budgets", "prefix_drop_then_refused", "same_command_repeated", "prefix_connections_refused", "prefix_idle_connection_dropped", "loop_change_previous_loop_open", "two_piece_answer_in_time", "lone_fragment_every_attempt", "slow_answer_in_time", "full_timeout_after_corrupt_answer", "final_silent_exact", "prefix_success_after_drops", "prefix_exhausted", "prefix_rejected", "prefix_send_error",
         "prefix_recv_error", "loop_change", "connect_probe", "discover_probe", "search_probe", "search_answered", "detected_family_probe",
         "connected_then_silent"]
 EXHAUSTIVE = {"quick": True, "thorough": True}
@@ -239,6 +239,32 @@ def check_history(sc, run, part: Part):
     return out
 
 
+def cross_function_part(part):
+    """request A (a read) is served on its retransmission; the LATE answer to its first transmission arrives while request B - a write, i.e.
+    another function code, whose own answers are lost - is waiting.  That stray datagram is no answer to B: B still gets its whole budget
+    (retries + 1 transmissions) and ends as a failed request, not as a refusal nobody sent"""
+    for transport, framing in (("udp", "rtu"), ("tcp", "tcp")):
+        for ka in (True, False):
+            for R in (1, 2, 3):
+                for stepb in (["write", 101, 5], ["multi", 101, "00010002"], ["read", 101, 7]):
+                    sc = {"transport": transport, "framing": framing, "keep_alive": ka, "T": 1, "R": R, "after": "drop",
+                          "by_reg": {100: ["late", "now"], 101: []}, "tasks": [{"start": 0.0, "steps": [["read", 100, 2], stepb]}]}
+                    run = engine.run_scenario(sc, quiesce=False)
+                    part.evaluations += 1
+                    part.count("stray_answer_of_another_function_code")
+                    part.see(repr(("crossfc", transport, ka, R, stepb[0])))
+                    case = {"kind": "crossfc"}
+                    if run.stop:
+                        part.violate(f"C05/{transport}/hang", run.stop, case)
+                        continue
+                    recb = run.calls[-1]
+                    ntx = len([e for e in engine.events_of_call(run, recb["id"]) if e[1] == "tx"])
+                    if recb["outcome"] != "RequestFailedException" or ntx != R + 1:
+                        part.violate(f"C05/{transport}/silent-request-budget",
+                                     f"keep_alive={ka} R={R}: {stepb} after a read whose first answer came late: ended {recb['outcome']} after {ntx} transmissions "
+                                     f"(nothing but the late answer to the PREVIOUS request arrived for it); expected RequestFailedException after {R + 1}", case)
+
+
 def run_history(sc, part):
     run = engine.run_scenario(sc, quiesce=False)
     part.evaluations += 1
@@ -448,6 +474,7 @@ def run_shard(spec):
                     run_history(scenario(spec["transport"], spec["ka"], spec["T"], spec["R"], list(prefix), False, same_reg=True), part)
                     part.count("same_command_repeated")
     else:
+        cross_function_part(part)
         ts = (1, 2, 3)
         rs = (0, 1, 2, 3)
         for t in ts:
@@ -489,6 +516,9 @@ def run_shard(spec):
 
 def replay(case):
     part = Part()
+    if case["kind"] == "crossfc":
+        cross_function_part(part)
+        return [{"key": v["key"], "msg": v["msg"]} for v in part.violations]
     if case["kind"] == "history":
         vs = run_history(case["scenario"], part)
     else:
